@@ -20,12 +20,21 @@ ALL = [f"C{i:02d}" for i in range(1, 21)]
 def run_property(pid, tier, model=None, quiet=False, write=True):
     t0 = time.time()
     seed = int(os.environ.get("VERIF_SEED", "0") or 0)
+    ctx = None
     try:
         if model is None:
             model = Model()
         ctx = Ctx(pid, model, tier, quiet=quiet)
         mod = importlib.import_module(f"ubcheck.rules.{pid.lower()}")
-        mod.check(ctx)
+        try:
+            mod.check(ctx)
+        except AnalysisError as e:
+            # a rule could not finish; if other rules already found violations, report those (exit 1) and
+            # mention the incomplete analysis - otherwise this is exit 2
+            if not ctx.findings:
+                raise
+            print(f"ANALYSIS-NOTE property={pid} analysis incomplete after the findings below: {e}")
+            return finish(ctx, t0, seed, {"incomplete": str(e)})
         extra = None
         if tier == "thorough":
             from . import mutate
